@@ -11,6 +11,7 @@ CONSTANTS
   NViews = 2
   PokeTTLs = {}
   MaxOps = 1000
+  Faults = FALSE
   Full = TRUE
   DetOnly = TRUE
 INIT Init
